@@ -147,6 +147,9 @@ def run(ctx):
 
 # ---------------------------------------------------------------- dispatch sites
     rules.elements_adjacent_complete(ctx)  # the predicate that routes a pair to the singular rule (ADJ-9)
+    from .. import spaces as _spaces
+
+    _spaces.localised_inherit(ctx)  # singular parts, sparse forms, potentials and FMM point maps are computed on the localised companion space
 
 
 DISPATCH_FILES = {
